@@ -46,6 +46,9 @@ def _local_defs(loop):
         if isinstance(n, ast.Assign) and len(n.targets) == 1 and isinstance(n.targets[0], ast.Name):
             seen[n.targets[0].id] = seen.get(n.targets[0].id, 0) + 1
             defs[n.targets[0].id] = unparse(n.value)
+        elif isinstance(n, ast.Name) and isinstance(n.ctx, (ast.Store, ast.Del)) and not (isinstance(getattr(n, "_parent", None), ast.Assign) and len(n._parent.targets) == 1 and n._parent.targets[0] is n):
+            # any other binding of the name (augmented assignment, tuple target, loop variable, walrus): it is not a simple name for one expression
+            seen[n.id] = seen.get(n.id, 0) + 2
     return {k: v for k, v in defs.items() if seen[k] == 1}
 
 
